@@ -501,7 +501,7 @@ func (g txGen) custom(canary string, dirty bool) []txCuRef {
 // canary Ingress, no original-configuration annotation, Services untouched).
 func (g txGen) net(p txProv, canary string, pristine bool) txNet {
 	n := txNet{StableExists: !g.p(3)}
-	n.StableBare = n.StableExists && g.p(2)
+	n.StableBare = n.StableExists && g.p(8)
 	gg := &gwGen{c: g.c, conf: gateway.Config{StableService: trSvc, CanaryService: trSvc + "-canary"}}
 	if g.p(97) {
 		rs := gg.route(!pristine && g.p(50))
